@@ -136,7 +136,13 @@ def class_ranges(items, flags=0):
         r = _icase_ranges(r)
     if neg:
         r = _complement_ranges(r)
-    return r
+    out = []
+    for lo, hi in sorted(set(r)):
+        if out and out[-1][1] >= lo - 1:
+            out[-1] = (out[-1][0], max(out[-1][1], hi))
+        else:
+            out.append((lo, hi))
+    return out
 
 
 def _tr(seq, flags):
